@@ -162,8 +162,13 @@ func NewLinearFeeFunction(maxFeeRate chainfee.SatPerKWeight,
 	// ending fee rate, which is what the budget and the max fee rate
 	// allow. If it does there is no room to ramp up, so we use the ending
 	// fee rate right away, as we do when the deadline is reached.
-	if start > end {
-		log.Warnf("Starting fee rate %v exceeds ending fee rate %v, "+
+	//
+	// The same applies when the caller asks to start exactly at the
+	// ending fee rate, which happens when a sweep that had reached its
+	// ceiling is retried: failing it with ErrZeroFeeRateDelta would leave
+	// it unswept until the deadline.
+	if start > end || (startingFeeRate.IsSome() && start == end) {
+		log.Warnf("Starting fee rate %v reaches ending fee rate %v, "+
 			"using the ending fee rate", start, end)
 
 		return &LinearFeeFunction{
